@@ -24,6 +24,7 @@ package c20
 
 import (
 	"bytes"
+	"strconv"
 	"encoding/xml"
 	"fmt"
 	"io"
@@ -177,6 +178,22 @@ func msgClass(msg string) string {
 		out = out[:70]
 	}
 	return out
+}
+
+// cpuTicks returns utime+stime of a process (clock ticks), -1 if unknown.
+func cpuTicks(pid int) int64 {
+	b, err := os.ReadFile(fmt.Sprintf("/proc/%d/stat", pid))
+	if err != nil {
+		return -1
+	}
+	i := bytes.LastIndexByte(b, ')')
+	f := strings.Fields(string(b[i+1:]))
+	if len(f) < 14 {
+		return -1
+	}
+	u, _ := strconv.ParseInt(f[11], 10, 64)
+	st, _ := strconv.ParseInt(f[12], 10, 64)
+	return u + st
 }
 
 func vmPeak(pid int) int64 {
@@ -583,12 +600,26 @@ func (w *worker) onHang(fc *fcase, o *outcome) {
 		c.Inconclusive("restart after watchdog expiry failed")
 		return
 	}
+	cpu0 := cpuTicks(w.g.Pid())
 	o2 := w.send(fc, true)
+	cpu1 := cpuTicks(w.g.Pid())
 	switch {
 	case o2.died:
 		// the isolated re-run killed the gateway: that is a death, handled as such
 		w.onDeath(fc, o2, nil)
 		return
+	case o2.hung && o2.res != nil && o2.res.timeout && o2.slow.okSigned >= 5 && o2.slow.failSign == 0 && o2.slow.failN == 0:
+		// Alone on a fresh gateway the request (completely sent, connection half-closed, so the server cannot be
+		// waiting for input) got no answer for the whole watchdog, twice, while the same process answered every
+		// one of the signed requests and health probes sent to it in the meantime: machine and gateway are
+		// responsive, this request is never answered. The CPU time the process used meanwhile tells a spinning
+		// handler from a blocked one.
+		kind := "blocked"
+		if cpu1-cpu0 > int64(watchdog/time.Second)*50 { // more than half a core for the whole time (100 ticks/s)
+			kind = "spinning"
+		}
+		c.Violation("unanswered:"+fc.site(), fc.id, w.detail(fc, o2, map[string]any{"watchdog_s": int(watchdog / time.Second), "handler": kind,
+			"gateway_cpu_ticks_during_isolated_run": cpu1 - cpu0, "signed_probes_answered_meanwhile": o2.slow.okSigned, "health_probes_answered_meanwhile": o2.slow.okN, "first_run_health_starved": starved1}))
 	case o2.hung && o2.slow.starved():
 		c.Violation("wedge:"+fc.site(), fc.id, w.detail(fc, o2, map[string]any{"first_run_health_starved": starved1, "isolated_health_probes_ok": o2.slow.okN, "isolated_health_probes_failed": o2.slow.failN, "isolated_signed_probes_ok": o2.slow.okSigned, "isolated_signed_probes_failed": o2.slow.failSign}))
 	case o2.hung:
@@ -911,7 +942,7 @@ func Run(c *ev.Ctx) int {
 		return c.Finish("nothing ran", 1)
 	}
 	defer x.close()
-	total := c.Pick(5000, 150000)
+	total := c.Pick(8000, 150000)
 	cases, universe := generate(x, c.Rng("cases"), c.Thorough(), total)
 	if debug {
 		for _, fc := range cases {
